@@ -600,6 +600,37 @@ func runC01(c *Checker) {
 			}
 			c.decide(okk, "WIN-1", "receiveLoop|ACK carries the accepted Seq", instrPos(st), "ACK.Seq = Seq of the packet accepted on this leg",
 				"the ACK does not carry the sequence number of the packet just accepted")
+			// ... and whatever is acknowledged is consumed: once the ACK went out the sender forgets the
+			// packet, so its sequence number must be used up on every way to the next iteration - for a
+			// ping too (an acknowledged ping that leaves recvSeq where it was makes the receiver NACK
+			// every later packet for ever)
+			if fa, ok := st.Addr.(*ssa.FieldAddr); ok {
+				var ackSend ssa.Instruction
+				allInstrs(rl, func(x ssa.Instruction) {
+					ci, ok := x.(ssa.CallInstruction)
+					if !ok {
+						return
+					}
+					for _, a := range ci.Common().Args {
+						if mi, ok := a.(*ssa.MakeInterface); ok && mi.X == fa.X {
+							ackSend = x
+						}
+					}
+				})
+				if h := loopHeadOf(rl); ackSend != nil && h != nil && len(h.Instrs) > 0 {
+					isAdv := func(x ssa.Instruction) bool {
+						s2, ok := x.(*ssa.Store)
+						if !ok {
+							return false
+						}
+						f2, ok := s2.Addr.(*ssa.FieldAddr)
+						return ok && structFieldOf(f2) == fRecvSeq
+					}
+					skipped := pathExists(ackSend, h.Instrs[0], isAdv)
+					c.decide(!skipped, "WIN-1", "receiveLoop|every acknowledged packet uses up its sequence number", instrPos(ackSend), "from the ACK every way to the next iteration passes the advance of recvSeq",
+						"after the ACK was sent the loop can go on without advancing recvSeq (on the ping leg, say): the sender has dropped the packet, the receiver still waits for it and NACKs everything that follows")
+				}
+			}
 			// the ACK send precedes the advance (so ACK.Seq, if read from recvSeq, would still be right) - informational
 		case "PacketNACK":
 			okk := rejectFact(st.Block()) && isLoadOfField(st.Val, fRecvSeq)
@@ -906,6 +937,9 @@ func ruleWIN3(c *Checker, sl *ssa.Function) {
 // C09
 
 func runC09(c *Checker) {
+	// "at most N outstanding" is about the N both sides agreed on: the handshake obligations of
+	// C10 (every completion adopts the negotiated N and s = N+1) are part of this check
+	importLayers(c, "C10")
 	w := c.w
 	ruleWIN5(c)
 	rg := newRanger(w)
